@@ -552,4 +552,20 @@ def regen_simd():
     return None
 
 
-GENERATORS = {"tables": regen_tables, "parser_exits": regen_parser_exits, "simd": regen_simd}
+def regen_init_protocol():
+    """Gen/InitProtocol.lean: atomic operations / memory orders / plain stores of ensure_tables, limit accessors."""
+    sys.path.insert(0, str(VERIF / "gen"))
+    import init_protocol
+    try:
+        ir = init_protocol.extract(REPO)
+    except Exception as e:  # noqa
+        return f"gen:init_protocol: extractor failed: {type(e).__name__}: {e}"
+    if ir is None:
+        return "gen:init_protocol: ensure_tables()/tables_are_ready() not found in src/ada_idna.cpp"
+    with Lock("lake"):
+        write_if_changed(LEAN / "AdaVerif" / "Gen" / "InitProtocol.lean", init_protocol.to_lean(ir))
+    return None
+
+
+GENERATORS = {"tables": regen_tables, "parser_exits": regen_parser_exits, "simd": regen_simd,
+              "init_protocol": regen_init_protocol}
